@@ -6,7 +6,7 @@ from .. import env, attach, gen, flow, solve
 from ..canon import Snap
 
 PROPERTY = 'C15'
-CASES = {'quick': 132, 'thorough': 1800}
+CASES = {'quick': 396, 'thorough': 3168}
 BUDGET_S = {'quick': 300, 'thorough': 2400}
 RULE = ('case = a portfolio (transports, multi-commodity, CHP/Plant with fuel rows, coarse-frequency and periodic assets, storages, order books - '
         'i.e. assets with several mapping rows per variable) set up and optimised through the real code, then set up again with fix_time_window = '
@@ -18,7 +18,7 @@ RULE = ('case = a portfolio (transports, multi-commodity, CHP/Plant with fuel ro
 ASSUMPTIONS = ['the fix_time_window dictionary is passed as a copy (C10 effects are kept out of this check)',
                'a variable belongs to the window if ANY of its mapping rows lies in it', 'dates are given zone-aware on zone-aware grids',
                'MIP portfolios whose re-optimisation reports failure are inconclusive (booleans pinned to values within solver tolerance of 0/1)']
-MIN_NONVACUOUS = {'quick': {'fix.window_variables_pinned': 100, 'fix.other_bounds_untouched': 100, 'fix.solution_kept_on_window': 80, 'fix.same_prices_same_value': 40},
+MIN_NONVACUOUS = {'quick': {'fix.window_variables_pinned': 250, 'fix.other_bounds_untouched': 250, 'fix.solution_kept_on_window': 200, 'fix.same_prices_same_value': 100},
                   'thorough': {'fix.window_variables_pinned': 1500, 'fix.solution_kept_on_window': 1200, 'fix.same_prices_same_value': 600}}
 KINDS = ('contract', 'transport', 'transport', 'storage', 'multi', 'multi', 'coarse', 'coarse', 'periodic', 'orderbook', 'plant', 'chp', 'structured')
 
